@@ -209,6 +209,7 @@ class SourceStream:
         self._b = io.BytesIO(data)
         self._b.seek(start)
         self._seekable = seekable
+        self._short = short         # read(n) returns at most this many bytes (a raw, unbuffered stream)
         self.start = start
         self.ops = []
         self.min_pos_seen = start
@@ -245,7 +246,7 @@ class SourceStream:
         if n is None:
             n = -1
         pos = self._b.tell()
-        d = self._b.read(n)
+        d = self._b.read(n if not self._short or (0 <= n <= self._short) else self._short)
         self.ops.append(('read', pos, n, len(d)))
         self.bytes_read += len(d)
         if self.track:
